@@ -91,3 +91,9 @@ func AddCx14(a int) int {
 	// the sum
 	return a + 14
 }
+
+// PlainC carries a directive that matches nothing: it is reported, on every run.
+func PlainC(a int) int {
+	//lint:ignore SA4006 nothing is wrong on the next line
+	return a
+}
